@@ -114,7 +114,7 @@ tls_keys_dir = "{dir}/ssl"
 pid_file = "{dir}/krill.pid"
 service_uri = "https://krill.example.org/"
 log_type = "stderr"
-log_level = "off"
+log_level = "{log_level}"
 admin_token = "verif-admin-token"
 use_history_cache = {history_cache}
 ta_support_enabled = true
@@ -149,6 +149,7 @@ issued_certificate_reissue_weeks_before = {tar}
 signed_message_validity_days = {tad}
 "#,
             dir = dir.display(),
+            log_level = std::env::var("KVH_LOG").unwrap_or("off".into()),
             history_cache = self.history_cache,
             num_threads = self.num_threads,
             agg = self.agg,
@@ -262,6 +263,13 @@ impl World {
     /// Opens (or re-opens) a world over an existing directory.
     pub fn open(cfg: WorldCfg, dir: PathBuf, mem_seed: u64) -> Result<Self, String> {
         let config = cfg.config(&dir, mem_seed, "")?;
+        if std::env::var("KVH_LOG").is_ok() {
+            static ONCE: std::sync::Once = std::sync::Once::new();
+            let c2 = config.clone();
+            ONCE.call_once(move || {
+                let _ = c2.init_logging();
+            });
+        }
         let storage = StorageSystem::new(config.storage_uri.clone());
         let rt = KrillRuntime::new(config, storage, tokio_handle()).map_err(|e| format!("runtime: {e}"))?;
         let slow = SlowKrillRuntime::new(rt.clone());
@@ -415,6 +423,15 @@ impl World {
         self.repo().remove_publisher(h, &self.actor, &self.rt).map_err(|e| e.to_string())
     }
 
+    /// Re-creates the publisher for a CA at the local server (after it was
+    /// removed there). The CA's repository contact stays valid.
+    pub fn readd_publisher(&self, name: &str) -> OpRes {
+        let handle = CaHandle::from_str(name).map_err(|e| e.to_string())?;
+        let ca = self.cam().get_ca(&handle).map_err(|e| e.to_string())?;
+        let pub_req = PublisherRequest::new(ca.id_cert().base64.clone(), handle.convert(), None);
+        self.repo().create_publisher(pub_req, &self.actor).map_err(|e| format!("create_publisher: {e}"))
+    }
+
     pub fn keyroll_init(&self, ca: &str) -> OpRes {
         let ca_h = CaHandle::from_str(ca).map_err(|e| e.to_string())?;
         self.cam().ca_keyroll_init(ca_h, chrono::Duration::seconds(0), &self.actor, &self.rt).map_err(|e| e.to_string())
@@ -527,6 +544,11 @@ impl World {
         if self.task_trace.len() < 20_000 {
             self.task_trace.push(name.clone());
         }
+        if self.hold_types.iter().any(|h| name.starts_with(h.as_str())) {
+            let rt = self.rt.clone();
+            let _ = guarded(|| rt.tasks().reschedule(&key, krill::server::mq::in_hours(6)))?;
+            return Ok(Some(format!("held:{name}")));
+        }
         let task: Task = match serde_json::from_value(value) {
             Ok(t) => t,
             Err(e) => {
@@ -558,9 +580,25 @@ impl World {
     /// hit.
     pub fn pump_quiesce(&mut self, max_steps: usize) -> Result<Result<usize, String>, Crash> {
         let mut steps = 0;
+        let mut last = String::new();
+        let mut same = 0;
         loop {
-            while let Some(_name) = self.pump_one()? {
+            while let Some(name) = self.pump_one()? {
                 steps += 1;
+                // A task that is rescheduled to "the same second" (e.g. the
+                // RRDP update waiting for its interval, which is kept in
+                // whole seconds) spins until the wall clock moves on; with
+                // the virtual clock we move it on ourselves.
+                if name == last {
+                    same += 1;
+                    if same >= 20 {
+                        clock::advance(1);
+                        same = 0;
+                    }
+                } else {
+                    last = name;
+                    same = 0;
+                }
                 if steps >= max_steps {
                     let tail: Vec<_> = self.task_trace.iter().rev().take(30).cloned().collect();
                     return Ok(Err(format!("no quiescence after {steps} task steps; last tasks (newest first): {tail:?}")));
